@@ -24,7 +24,7 @@ fn sync(mut b: Vec<u8>) -> Vec<u8> {
 }
 
 pub const PROGRAMS: &[&str] = &[
-    "prepare-then-bind", "two-names", "describe", "close-reparse", "two-binds-one-batch", "lru-order", "collide-a", "collide-b", "same-text-other-types", "parse-bind-same-batch", "case-variant", "error-parse", "error-parse-twice", "sql-prepare-between", "sql-prepare-only",
+    "prepare-then-bind", "two-names", "describe", "close-reparse", "two-binds-one-batch", "lru-order", "collide-a", "collide-b", "same-text-other-types", "parse-bind-same-batch", "case-variant", "error-parse", "error-parse-twice", "bind-close-reparse-one-batch", "sql-prepare-between", "sql-prepare-only",
 ];
 
 /// Program for client `c`. Texts carry the client's tag so that results are attributable.
@@ -139,6 +139,18 @@ pub fn program(c: usize, prog: &str) -> Script {
             b.extend(be("a", &t(1)));
             s = s.send_z(sync(b), "P(a,T1) B E S");
             s = s.send_z(sync(be("a", &t(2))), "B(a) E S");
+        }
+        "bind-close-reparse-one-batch" => {
+            // a name is used, closed and given to another (already known) text within one batch: the Bind
+            // is for the statement the name stood for when it was sent, also on a server that lacks it
+            s = s.send_z(sync(p("a", &t1, &[])), "P(a,T1) S");
+            s = s.send_z(sync(p("b", &t2, &[])), "P(b,T2) S");
+            let mut b = be("a", &t(1));
+            b.extend(wire::close(b'S', "a"));
+            b.extend(p("a", &t2, &[]));
+            s = s.send_z(sync(b), "B(a) E C(S,a) P(a,T2) S");
+            s = s.send_z(sync(be("a", &t(2))), "B(a) E S");
+            s = s.send_z(sync(be("b", &t(3))), "B(b) E S");
         }
         "error-parse-twice" => {
             // the same rejected text again: it was never prepared, so it must be sent (and rejected) again,
@@ -324,18 +336,42 @@ pub fn oracle(sc: &Scenario, out: &Outcome) -> Vec<Violation> {
         let label = if prog.starts_with("gen:") { gen_class(prog) } else { prog };
         vs.extend(compare_with_reference(log, c, true, "C08.visible", &format!("prog={}:cache={}", label, cache)));
     }
-    // (2) server-side statement table never exceeds the configured size (+1 while replacing)
+    // (2) evicted statements are closed on the server: while a batch is being prepared the server may hold
+    // the statements the batch itself uses on top of the configured size (the pooler closes evicted ones
+    // once the batch is through), never more; and whatever a connection holds after its last message is
+    // within the configured size
+    let mut batch_max = 1usize;
+    for e in log {
+        if let Rec::CSend { bytes, .. } = &e.rec {
+            let (msgs, _, _) = wire::split_stream(bytes);
+            batch_max = batch_max.max(msgs.iter().filter(|m| matches!(m.code, b'P' | b'B' | b'D')).count());
+        }
+    }
+    let prog_label = if progs.starts_with("gen:") { gen_class(&progs).to_string() } else { progs.clone() };
+    let mut last: std::collections::BTreeMap<usize, usize> = std::collections::BTreeMap::new();
+    let mut reported = false;
     for e in log {
         if let Rec::BRecv { conn, st, .. } = &e.rec {
             let n = st.stmts.keys().filter(|k| k.starts_with("PGCAT_")).count();
-            if n > cache + 1 {
+            last.insert(*conn, n);
+            if n > cache + batch_max && !reported {
+                reported = true;
                 vs.push(v(
                     "C08.server-cache-size",
-                    format!("C08.server-cache-size:cache={}:progs={}", cache, if progs.starts_with("gen:") { gen_class(&progs) } else { &progs }),
-                    format!("backend conn {} holds {} pooler statements with prepared_statements_cache_size = {}", conn, n, cache),
+                    format!("C08.server-cache-size:cache={}:progs={}", cache, prog_label),
+                    format!("backend conn {} holds {} pooler statements with prepared_statements_cache_size = {} (largest client batch uses {})", conn, n, cache, batch_max),
                 ));
-                break;
             }
+        }
+    }
+    for (conn, n) in last {
+        if n > cache {
+            vs.push(v(
+                "C08.server-cache-size",
+                format!("C08.server-cache-size:at-rest:cache={}:progs={}", cache, prog_label),
+                format!("after its last message backend conn {} still holds {} pooler statements with prepared_statements_cache_size = {}: evicted statements were not closed", conn, n, cache),
+            ));
+            break;
         }
     }
     // (3) rewritten Parse/Bind differ from the originals only in the statement name
@@ -437,7 +473,7 @@ pub fn build(tier: &str) -> SimCheck {
         oracle: Box::new(oracle),
         bound: if thorough { 3 } else { 2 },
         limits: Limits { max_wall_s: if thorough { 1500.0 } else { 50.0 }, ..Default::default() },
-        rule: "generated: every batch of <= 2 (thorough 3) items over {P(a,T1), P(a,T2), P(b,T2), B(a)E, B(b)E, D(S,a), C(S,a), C(S,b), unnamed P B E, C(P,''), B E on a portal named like its statement, C(P,a)} after the prefixes {none, a prepared, a and b prepared}, followed by a probe Bind of a or b, kept when valid on a direct connection, x cache size {1,2,8}; hand-written: scenario = server/pool statement cache size {1,2,8} x pool_size {1,2} x one or two client programs over shared names a/b (prepare then bind across transactions, two names, Describe, Close + re-Parse with new text, two Binds in one batch, LRU order, structurally colliding (text, n, types) encodings, same text with other types, Parse+Bind pairs in one batch, case variants, rejected Parse, the same rejected text parsed again under the same and another name, a simple-protocol PREPARE (which makes the pooler DEALLOCATE ALL at check-in) between uses of a protocol-level statement); all schedules with <= bound deviations; oracle = direct-connection reference per client".into(),
+        rule: "generated: every batch of <= 2 (thorough 3) items over {P(a,T1), P(a,T2), P(b,T2), B(a)E, B(b)E, D(S,a), C(S,a), C(S,b), unnamed P B E, C(P,''), B E on a portal named like its statement, C(P,a)} after the prefixes {none, a prepared, a and b prepared}, followed by a probe Bind of a or b, kept when valid on a direct connection, x cache size {1,2,8}; hand-written: scenario = server/pool statement cache size {1,2,8} x pool_size {1,2} x one or two client programs over shared names a/b (prepare then bind across transactions, two names, Describe, Close + re-Parse with new text, two Binds in one batch, LRU order, structurally colliding (text, n, types) encodings, same text with other types, Parse+Bind pairs in one batch, case variants, rejected Parse, the same rejected text parsed again under the same and another name, a name bound, closed and re-prepared with another known text in one batch, a simple-protocol PREPARE (which makes the pooler DEALLOCATE ALL at check-in) between uses of a protocol-level statement); all schedules with <= bound deviations; oracle = direct-connection reference per client".into(),
         assumptions: vec!["the reference backend without a pooler defines the direct-connection behaviour; synthesised ParseComplete/CloseComplete may be reordered within a reply".into()],
     }
 }
